@@ -667,6 +667,129 @@ func (g *confGen) config() *configs.SchedulerConfig {
 	return c
 }
 
+
+// ---- targeted stream: limit chains ----
+// A clean three or four level tree whose only interesting content is user / group limits placed on NON adjacent levels:
+// an ancestor with a named entry and/or a wildcard entry (the wildcard group needs a named group in the same queue),
+// optional wildcard-only or empty levels in between, and a descendant entry for the same or for a fresh name whose
+// values sit on the boundaries of every comparison of checkLimitResource / checkLimitMaxApplications (equal, one
+// more, smaller, absent = 0 / no resources, other resource type).  Users and groups are drawn independently.
+func (g *confGen) limitEntry(name string, users, groups []string, apps uint64, mem, vcore int64) configs.Limit {
+	l := configs.Limit{Limit: name, Users: users, Groups: groups, MaxApplications: apps}
+	if mem > 0 || vcore > 0 {
+		l.MaxResources = map[string]string{}
+		if mem > 0 {
+			l.MaxResources["memory"] = fmt.Sprintf("%d", mem)
+		}
+		if vcore > 0 {
+			l.MaxResources["vcore"] = fmt.Sprintf("%dm", vcore)
+		}
+	}
+	return l
+}
+
+func (g *confGen) limitScenario() *configs.SchedulerConfig {
+	r := g.r
+	pickDim := func(n string) (u, gr []string) {
+		switch r.Intn(3) {
+		case 0:
+			return []string{n}, nil
+		case 1:
+			return nil, []string{n}
+		}
+		return []string{n}, []string{n}
+	}
+	// ancestor values
+	a1 := uint64(r.Intn(3)) * uint64(2+r.Intn(8)) // 0 = unlimited in one case of three
+	w := uint64(r.Intn(3)) * uint64(2+r.Intn(8))
+	m1 := int64(r.Intn(3)) * int64(10+r.Intn(90))
+	mw := int64(r.Intn(3)) * int64(10+r.Intn(90))
+	if a1 == 0 && m1 == 0 {
+		a1 = 6
+	}
+	if w == 0 && mw == 0 {
+		mw = 50
+	}
+	xu, xg := pickDim("dev")
+	var top []configs.Limit
+	top = append(top, g.limitEntry("named", xu, xg, a1, m1, 0))
+	hasWild := r.Chance(65)
+	if hasWild {
+		var wu, wg []string
+		if len(xu) > 0 && (len(xg) == 0 || r.Bool()) {
+			wu = []string{"*"}
+		}
+		if len(xg) > 0 && (wu == nil || r.Bool()) {
+			wg = []string{"*"} // allowed: a named group precedes it in this queue
+		}
+		top = append(top, g.limitEntry("wild", wu, wg, w, mw, 0))
+	}
+	// the descendant: same name (named chain) or a fresh one (wildcard chain)
+	name := "dev"
+	if r.Chance(55) {
+		name = "ops"
+	}
+	var cu, cg []string
+	switch {
+	case len(xu) > 0 && len(xg) > 0:
+		cu, cg = pickDim(name)
+	case len(xu) > 0:
+		cu = []string{name}
+	default:
+		cg = []string{name}
+	}
+	pickApps := func() uint64 {
+		c := []uint64{0, 0, 1, a1, a1 + 1, w, w + 1}
+		if a1 > 1 {
+			c = append(c, a1-1)
+		}
+		if w > 1 {
+			c = append(c, w-1)
+		}
+		return c[r.Intn(len(c))]
+	}
+	pickMem := func() int64 {
+		c := []int64{0, 0, 1, m1, m1 + 1, mw, mw + 1}
+		if m1 > 1 {
+			c = append(c, m1-1)
+		}
+		if mw > 1 {
+			c = append(c, mw-1)
+		}
+		return c[r.Intn(len(c))]
+	}
+	ca, cm := pickApps(), pickMem()
+	cv := int64(0)
+	if r.Chance(25) {
+		cv = int64(100 * (1 + r.Intn(20))) // a type the ancestors do not define
+	}
+	if ca == 0 && cm == 0 && cv == 0 {
+		if r.Bool() {
+			cm = 1 + mw/2 + m1/2
+		} else {
+			ca = 1
+		}
+	}
+	leaf := configs.QueueConfig{Name: "batch", Limits: []configs.Limit{g.limitEntry("leaf", cu, cg, ca, cm, cv)}}
+	mid := configs.QueueConfig{Name: "team", Parent: true, Queues: []configs.QueueConfig{leaf}}
+	switch r.Intn(6) {
+	case 0: // a wildcard-only level in between (users only: a lone wildcard group is not allowed)
+		mid.Limits = []configs.Limit{g.limitEntry("midwild", []string{"*"}, nil, uint64(1+r.Intn(9)), 0, 0)}
+	case 1: // another name in between
+		mu, mg := pickDim("qa")
+		mid.Limits = []configs.Limit{g.limitEntry("midother", mu, mg, uint64(r.Intn(9)), int64(1+r.Intn(50)), 0)}
+	case 2: // one more empty level
+		mid = configs.QueueConfig{Name: "team", Parent: true, Queues: []configs.QueueConfig{{Name: "sub", Parent: true, Queues: []configs.QueueConfig{leaf}}}}
+	}
+	tenant := configs.QueueConfig{Name: "tenant", Parent: true, Limits: top, Queues: []configs.QueueConfig{mid}}
+	root := configs.QueueConfig{Name: "root", Parent: true, Queues: []configs.QueueConfig{tenant}}
+	if r.Chance(30) { // the ancestor entries on the root instead
+		root.Limits, tenant.Limits = top, nil
+		root.Queues = []configs.QueueConfig{tenant}
+	}
+	return &configs.SchedulerConfig{Partitions: []configs.PartitionConfig{{Name: "default", Queues: []configs.QueueConfig{root}}}}
+}
+
 // ---- YAML node level permutation and mutation ----
 
 func confParseNode(b []byte) *yaml.Node {
